@@ -319,6 +319,23 @@ ADDENDA_R7 = {
  "C19": "Const over every sub-construct that can encode the constant.",
  "C20": "Lists that are prefixes of one another in the equality family.",
 }
+ADDENDA_R8 = {
+ "C01": "Repeater elements whose layout depends on this._index.",
+ "C03": "Declaration spellings the term builder does not use (keyword members, x[n], patterns) against the term they must mean.",
+ "C04": "Every parsed value also built with each derived member omitted; Sequence twins compiled.",
+ "C05": "Length-prefixed members among the lazily skipped ones.",
+ "C08": "Pointer with stream= naming the outermost stream, observed from inside every region.",
+ "C09": "Alternatives that write before they fail (build side); generated code of constant-selector Unions with anonymous members.",
+ "C10": "Zero-size Bytewise islands.",
+ "C13": "Predicates answering None, '' or [].",
+ "C14": "A parsed RawCopy object rebuilt at another position.",
+ "C15": "ByteSwapped over every (signed, swapped) BytesInteger.",
+ "C16": "Members and elements whose layout depends on this._index under LazyStruct / LazyArray (five recorded findings).",
+ "C19": "Constant Pointer targets from the start and from the end.",
+ "C20": "Keys spelled like the containers' own methods (incl. _search) in the search family.",
+}
+for _k, _v in ADDENDA_R8.items():
+    ADDENDA_R7[_k] = (ADDENDA_R7[_k] + " " if _k in ADDENDA_R7 else "") + _v
 for _k, _v in ADDENDA_R7.items():
     ADDENDA_R6[_k] = (ADDENDA_R6[_k] + " " if _k in ADDENDA_R6 else "") + _v
 for _k, _v in ADDENDA_R6.items():
